@@ -284,7 +284,7 @@ class Unit:
             if kind == "struct":
                 n += 1
                 it["id"] = "s%d" % n
-                items.append({"id": it["id"], "file": os.path.join(REPO, it["file"]), "kind": it["kind"], "name": it["name"], "subst": parse_subst(it.get("subst")), "drop_generics": it["drop"].split(",") if it.get("drop") else [], "rename": it.get("rename")})
+                items.append({"id": it["id"], "file": os.path.join(REPO, it["file"]), "kind": it["kind"], "name": it["name"], "subst": parse_subst(it.get("subst")), "drop_generics": it["drop"].split(",") if it.get("drop") else [], "rename": it.get("rename"), "ptr_field": it.get("ptrfield")})
             elif kind == "fn":
                 n += 1
                 d = it
@@ -301,6 +301,7 @@ class Unit:
                     "anchors": [{"id": h["id"], "where": h["where"], "text": h["text"], "occ": h["occ"], "loop": h["loop"]} for h in d.hints],
                     "ret_name": o.get("ret"),
                     "no_ptr_rule": bool(o.get("noptr")),
+                    "ptr_field": o.get("ptrfield"),
                     "iter_inline": parse_subst(o.get("iterinline")),
                     "macro_rules": o.get("macro"), "macro_arg": o.get("macroarg"),
                     "hoist": {str(k): {"name": v["name"], "generics": v["generics"], "params": v["params"], "ret": v["ret"]} for k, v in d.hoists.items()},
